@@ -1,54 +1,65 @@
 #!/bin/bash
-# Full offline build of the proof development and the model runner.
-#   tools/build.sh          incremental (make decides)
-#   tools/build.sh clean    from scratch
-# Leaves: coq/**/*.vo, coq/build.log, runner/driver.  Exit != 0 if anything
-# fails, including the hygiene scan (no Admitted / Axiom / ... anywhere).
+# Offline build of the proof development and the model runners.
+#   tools/build.sh            everything (setup_cmd): coq_makefile + make -j16 (full .vo), hygiene scan, all runners
+#   tools/build.sh clean      the same from scratch
+#   tools/build.sh C07 [...]  only what property C07 needs: theories/C07_Wire.vo, theories/C07_Props.vo and
+#                             extra targets given after the id; its runner
+# Exit != 0 if anything fails, including the hygiene scan.
 set -u
 ROOT="$(cd "$(dirname "$0")/.." && pwd)"
-cd "$ROOT"
-export GOFLAGS=-mod=mod GOPROXY=off GOSUMDB=off GOTOOLCHAIN=local
+cd "$ROOT"; mkdir -p work
+MODE="${1:-all}"
 
-exec 9>"$ROOT/work/.build.lock" 2>/dev/null || { mkdir -p "$ROOT/work"; exec 9>"$ROOT/work/.build.lock"; }
-flock 9
-
-python3 tools/gen_glue.py || exit 1
-
+# --- glue + Makefile under a short global lock
+exec 9>"$ROOT/work/.glue.lock"; flock 9
+IDS="$(python3 tools/gen_glue.py)" || exit 1
 cd "$ROOT/coq"
-if [ "${1:-}" = "clean" ]; then
-  [ -f Makefile ] && make -s clean >/dev/null 2>&1
-  find . -name '*.vo' -o -name '*.vok' -o -name '*.vos' -o -name '*.glob' -o -name '*.aux' | xargs -r rm -f
+if [ "$MODE" = "clean" ]; then
+  find . \( -name '*.vo' -o -name '*.vok' -o -name '*.vos' -o -name '*.glob' -o -name '*.aux' \) -print0 | xargs -0 -r rm -f
   rm -f Makefile Makefile.conf .Makefile.d
+  rm -rf "$ROOT/runner/bin" "$ROOT/runner/build"
+  MODE=all
 fi
 if [ ! -f Makefile ] || [ _CoqProject -nt Makefile ]; then
-  coq_makefile -f _CoqProject -o Makefile >/dev/null || exit 1
+  coq_makefile -f _CoqProject -o Makefile >/dev/null 2>&1 || { echo "build: coq_makefile failed"; exit 1; }
+  rm -f .Makefile.d
 fi
-# full .vo build (never -vos / -vok)
-if ! make -q >/dev/null 2>&1; then
-  timeout 3000 make -j16 2>&1 | tee build.log.tmp | grep -E "^(COQC|Error|File|make)" | grep -v "^COQC" | head -50
-  st=${PIPESTATUS[0]}
-  mv build.log.tmp build.log
-  if [ "$st" != "0" ]; then echo "build: coq make FAILED (see coq/build.log)"; exit 1; fi
+flock -u 9
+
+if [ "$MODE" = "all" ]; then
+  exec 8>"$ROOT/work/.make.lock"; flock 8
+  if ! make -q >/dev/null 2>&1; then
+    timeout 3300 make -j16 > build.log 2>&1
+    st=$?
+    if [ "$st" != "0" ]; then grep -B2 -A12 -E "^Error|Error:" build.log | head -60; echo "build: coq make FAILED (see coq/build.log)"; exit 1; fi
+  fi
+  flock -u 8
+  cd "$ROOT"
+  python3 tools/hygiene.py || { echo "build: hygiene scan FAILED"; exit 1; }
+  fail=0
+  printf '%s\n' $IDS | xargs -r -P 8 -n 1 bash tools/build_runner.sh || fail=1
+  [ "$fail" = 0 ] || { echo "build: runner build FAILED"; exit 1; }
+  echo "build: ok (all; wire ids: $IDS)"
+  exit 0
 fi
 
-# hygiene: nothing admitted, no axioms declared, no checks switched off
+# --- one property
+ID="$MODE"; shift
+exec 8>"$ROOT/work/.make.$ID.lock"; flock 8
+TARGETS=""
+[ -f "theories/${ID}_Wire.v" ] && TARGETS="$TARGETS theories/${ID}_Wire.vo"
+[ -f "theories/${ID}_Props.v" ] && TARGETS="$TARGETS theories/${ID}_Props.vo"
+for t in "$@"; do TARGETS="$TARGETS $t"; done
+if [ -n "$TARGETS" ]; then
+  if ! make -q $TARGETS >/dev/null 2>&1; then
+    timeout 3300 make -j8 $TARGETS > "build.$ID.log" 2>&1
+    st=$?
+    if [ "$st" != "0" ]; then grep -B2 -A12 -E "^Error|Error:" "build.$ID.log" | head -60; echo "build: coq make FAILED for $ID (see coq/build.$ID.log)"; exit 1; fi
+  fi
+fi
 cd "$ROOT"
-if python3 tools/hygiene.py; then :; else echo "build: hygiene scan FAILED"; exit 1; fi
-
-# extraction + runner, only when a Wire .vo (or the driver) is newer than the binary
-cd "$ROOT/runner"
-need=0
-[ -x driver ] || need=1
-for f in ../coq/theories/*_Wire.vo driver.ml dispatch.ml ../coq/extract/Extract.v; do
-  [ "$f" -nt driver ] && need=1
-done
-if [ "$need" = 1 ]; then
-  rm -f models.ml models.mli
-  timeout 600 coqc -Q ../coq/theories Gogu ../coq/extract/Extract.v >/dev/null 2>extract.err || { cat extract.err; echo "build: extraction FAILED"; exit 1; }
-  rm -f ../coq/extract/Extract.vo ../coq/extract/Extract.glob ../coq/extract/.Extract.aux ../coq/extract/Extract.vok ../coq/extract/Extract.vos extract.err
-  timeout 600 ocamlfind ocamlopt -w -a -O2 models.mli models.ml dispatch.ml driver.ml -o driver 2>ocaml.err \
-    || timeout 600 ocamlfind ocamlopt -w -a models.mli models.ml dispatch.ml driver.ml -o driver 2>ocaml.err \
-    || { cat ocaml.err; echo "build: runner FAILED"; exit 1; }
-  rm -f ocaml.err *.cmi *.cmx *.o
+python3 tools/hygiene.py --only "$ID" >/dev/null || { python3 tools/hygiene.py --only "$ID"; echo "build: hygiene scan FAILED"; exit 1; }
+if [ -f "coq/theories/${ID}_Wire.v" ]; then
+  bash tools/build_runner.sh "$ID" || exit 1
 fi
-echo "build: ok"
+echo "build: ok ($ID)"
